@@ -800,7 +800,7 @@ func (e *Exec) box(st *State, v Val, iface types.Type) Val {
 		return v
 	}
 	if _, ok := v.GT.Underlying().(*types.Interface); ok {
-		return Val{T: v.T, GT: iface}
+		return Val{T: v.T, GT: iface, Orig: v.Orig}
 	}
 	box, unbox, tag := e.boxFuncs(v.GT)
 	e.syncImplFacts()
@@ -808,7 +808,7 @@ func (e *Exec) box(st *State, v Val, iface types.Type) Val {
 	e.sc.Assert(Eq(T(v.T.Sort, fmt.Sprintf("(%s %s)", unbox, b.S)), v.T))
 	e.sc.Assert(Eq(App(SInt, e.dynTypeFn(), b), IntLit(int64(tag))))
 	e.sc.Assert(Not(Eq(b, IntLit(0))))
-	return Val{T: b, GT: iface}
+	return Val{T: b, GT: iface, Orig: v.Orig}
 }
 
 func (e *Exec) hasDynType(st *State, v Val, t types.Type) Term {
@@ -866,7 +866,7 @@ func (e *Exec) convertTo(st *State, v Val, t types.Type) Val {
 				return e.box(st, v, t)
 			}
 		}
-		return Val{T: v.T, GT: t, Fn: v.Fn}
+		return Val{T: v.T, GT: t, Fn: v.Fn, Orig: v.Orig}
 	}
 	want := e.sr.sortOf(t)
 	if v.T.Sort != want {
